@@ -3,12 +3,19 @@
 E3 toy-sign / toy-sign-aux / toy-verify: whole state space of the toy instantiation.
 E1 real-sign: secp256k1, all four (P parity, R parity) classes, exact 64 bytes without any seam.
 E1 real-verify: deviation catalogue (bit flips, special R / s values, other key) against the BIP340 reference.
-E2 tagcache: every sequence of <= 3 first uses over the 10 tags from an emptied TAG_HASH_CACHE.
+E2 tagcache: every sequence of <= 3 first uses over the 10 tags from an emptied TAG_HASH_CACHE; arbitrary tags
+   (empty, prefix of another, equal to another tag's midstate bytes) through tagged_hash, histories <= 3 / 4.
+E3 toy-verify also parses every x-only KEY string (kx in [0, 2p+1] + {2^256-1}) before verifying.
+E2 toy-history / real-history: every sequence of sign operations over two keys x two messages x two aux values in
+   ONE process (state shared between key objects), every signature verified under both keys.
+E1 real-keyforms: the other ways to obtain a key object (SEC 02/03/04, negated point, WIF, tweaked key, ...).
+E1 nonce-bytes: bip340_k directly, single 00/ff byte at every position of message, aux and secret.
 """
+import functools
 import hashlib
 import itertools
 
-from mc.core import Engine, Res, attempt, Rejected, filler, filler_int, current_toy
+from mc.core import Engine, Res, attempt, Rejected, filler, filler_int, current_toy, H as core_H
 from mc.ref import ec
 
 PROP = "C02"
@@ -111,14 +118,60 @@ def gen_toy_verify(toy):
             # all messages on ONE point object in ONE process: a (key, signature) pair accepted under one message
             # is presented again under the others, which exposes verification state kept across calls
             cases.append({"toy": list(toy), "k": k, "mis": list(range(nm))})
+        # the KEY as a 32-byte string through S256Point.parse (x-only) instead of a ready-made point object: every
+        # kx in [0, 2p+1] + {2^256-1} (0, off-curve x, x >= p incl. the alias kx = x + p of EVERY valid x) x every (R.x, s)
+        for kx in list(range(0, 2 * c.p + 2)) + [2**256 - 1]:
+            cases.append({"toy": list(toy), "kx": str(kx), "mis": list(range(1 if tier == "quick" else 2))})
         return cases
 
     return g
 
 
+def run_toy_verify_key(case):
+    """x-only key string -> S256Point.parse -> verify_schnorr, all (R.x, s), against the BIP340 reference."""
+    from buidl import pecc
+
+    res = Res()
+    toy = tuple(case["toy"])
+    assert current_toy() == toy
+    c = ec.toy_curve(*toy)
+    n, p = c.n, c.p
+    only = case.get("only")
+    kx = int(case["kx"])
+    pk = ec.b32(kx)
+    vc = lambda x: {"engine": f"toy-verify-{p}", "toy": list(toy), "case": dict(case, only=x)}
+    point = attempt(pecc.S256Point.parse, pk)  # one parsed key object verifies every signature of the case
+    for mi in case["mis"]:
+        msg = toy_msgs(8)[mi]
+        for rx in list(range(0, p + 2)) + [2**256 - 1]:
+            for s in list(range(0, n + 2)) + [2**256 - 1]:
+                if only and only != [mi, rx, s]:
+                    continue
+                sig = ec.b32(rx) + ec.b32(s)
+                exp = c.schnorr_verify(pk, msg, sig)
+                got = False if isinstance(point, Rejected) else lib_verify(pecc, point, msg, sig)
+                if got != exp:
+                    if not got:
+                        cls = "rejects-valid"
+                    elif kx >= p:
+                        cls = "accepts-key>=p"
+                    elif c.lift_x(kx) is None:
+                        cls = "accepts-key-not-on-curve"
+                    else:
+                        cls = "accepts-s>=n" if s >= n else ("accepts-bad-R" if c.lift_x(rx) is None else "accepts-invalid")
+                    res.violation(f"C02/toy-verify/key-bytes/{cls}", vc([mi, rx, s]), got, exp, "S256Point.parse(32-byte key) + verify_schnorr disagrees with BIP340")
+                else:
+                    res.evaluations += 1
+                    res.outcomes["key-bytes:accept==ref" if exp else "key-bytes:reject==ref"] += 1
+                    res.nontrivial_bulk += 1
+    return res
+
+
 def run_toy_verify(case):
     from buidl import pecc
 
+    if "kx" in case:
+        return run_toy_verify_key(case)
     res = Res()
     toy = tuple(case["toy"])
     assert current_toy() == toy
@@ -131,7 +184,8 @@ def run_toy_verify(case):
     pk = ec.b32(P[0])
     for mi in case["mis"]:
         msg = toy_msgs(8)[mi]
-        for rx in list(range(0, p + 2)) + [2**256 - 1]:
+        # under the first message R.x also runs over [p+2, 2p+1]: the alias x + p of every valid x coordinate
+        for rx in list(range(0, (2 * p if mi == case["mis"][0] else p) + 2)) + [2**256 - 1]:
             for s in list(range(0, n + 2)) + [2**256 - 1]:
                 if only and only != [mi, rx, s]:
                     continue
@@ -148,6 +202,116 @@ def run_toy_verify(case):
                     res.evaluations += 1
                     res.outcomes["accept==ref" if exp else "reject==ref"] += 1
                     res.nontrivial_bulk += 1
+    return res
+
+
+# ------------------------------------------------------------------ sign histories over several key objects (E2)
+HIST_OPS = [[i, j, k] for i in (0, 1) for j in (0, 1) for k in (0, 1)]  # (key, message, aux) of one sign operation
+
+
+def histories(maxlen):
+    out = []
+    for dl in range(1, maxlen + 1):
+        out += [list(h) for h in itertools.product(range(len(HIST_OPS)), repeat=dl)]
+    return out
+
+
+def hist_values(salt):
+    """Messages / aux values of one history: private to it, so that histories do not disturb each other."""
+    return [core_H("c02hist-msg", salt, j) for j in (0, 1)], [core_H("c02hist-aux", salt, k) for k in (0, 1)]
+
+
+def run_history(pecc, c, engine, ds, hist, salt, res, vc):
+    """Execute one history on TWO key objects created once; after every sign operation the signature is verified under
+    the signing key and under the other key.  Everything is compared with the reference.  Returns False on violation."""
+    msgs, auxs = hist_values(salt)
+    keys = [pecc.PrivateKey(d) for d in ds]
+    pks = [ec.b32(c.mulg(d)[0]) for d in ds]
+    for step, oi in enumerate(hist):
+        i, j, k = HIST_OPS[oi]
+        msg, aux = msgs[j], auxs[k]
+        exp = c.schnorr_sign(ds[i], msg, aux)
+        sig = attempt(lambda: keys[i].sign_schnorr(msg, aux).serialize())
+        res.transitions += 1
+        if exp is None:  # derived nonce 0 (toy curves only)
+            if not isinstance(sig, Rejected):
+                res.violation(f"C02/{engine}/zero-nonce-signed", vc(hist[: step + 1]), sig, "failure", "derived nonce 0 must fail")
+                return False
+            res.ok("derived nonce 0 refused (degenerate)")
+            continue
+        if sig != exp:
+            prev = [HIST_OPS[o] for o in hist[:step]]
+            if not prev:
+                cls = "first-operation"
+            elif any(q[0] != i and (q[1] == j or q[2] == k) for q in prev):
+                cls = "after-other-key-signed-same-msg-or-aux"
+            elif any(q[0] == i for q in prev):
+                cls = "after-same-key-signed"
+            else:
+                cls = "after-other-key-signed"
+            res.violation(f"C02/{engine}/sign-differs/{cls}", vc(hist[: step + 1]), sig, exp, "sign_schnorr is not the BIP340 signature at the last step of this history (all operations in one process, key objects created once)")
+            return False
+        res.ok("sign==ref")
+        for who in (i, 1 - i):
+            expv = c.schnorr_verify(pks[who], msg, sig)
+            got = lib_verify(pecc, keys[who].point, msg, sig)
+            if got != expv:
+                cls = ("own-key-rejects" if who == i else "other-key-rejects") if expv else "other-key-accepts"
+                res.violation(f"C02/{engine}/verify/{cls}", vc(hist[: step + 1]), got, expv, "verify_schnorr disagrees with BIP340 inside a sign/verify history")
+                return False
+            res.ok("verify==ref(True)" if expv else "verify==ref(False)")
+    res.states += 1
+    return True
+
+
+def gen_toy_history(toy):
+    def g(tier, seed):
+        n = toy[1]
+        cases = []
+        for d0 in range(1, n):
+            # the next secret, and the negated secret (same x-only key, same even secret: identical signatures expected)
+            for d1 in sorted({d0 % (n - 1) + 1, n - d0} - {d0}):
+                cases.append({"toy": list(toy), "ds": [d0, d1], "maxlen": 2 if tier == "quick" else 3})
+        return cases
+
+    return g
+
+
+def run_toy_history(case):
+    from buidl import pecc
+
+    res = Res()
+    toy = tuple(case["toy"])
+    assert current_toy() == toy and pecc.N == toy[1]
+    c = ec.toy_curve(*toy)
+    name = f"toy-history-{toy[0]}"
+    only = case.get("only")
+    for hist in [only] if only else histories(case["maxlen"]):
+        # a violating prefix is replayed with the message/aux values of the full history it was found in
+        salt = (case.get("salt") if only else None) or f"{case['ds']}/{hist}"
+        vc = lambda h: {"engine": name, "toy": list(toy), "case": dict(case, only=h, salt=salt)}
+        if run_history(pecc, c, name, case["ds"], hist, salt, res, vc):
+            res.nontrivial_bulk += 1 if len(hist) > 1 else 0
+    return res
+
+
+def gen_real_history(tier, seed):
+    c = ec.SECP
+    ds = parity_classes(seed)
+    even = next(d for d in ds if c.mulg(d)[1] % 2 == 0)
+    odd = next(d for d in ds if c.mulg(d)[1] % 2 == 1)
+    return [{"ds": [str(even), str(odd)], "hist": h, "seed": seed} for h in histories(2 if tier == "quick" else 3)]
+
+
+def run_real_history(case):
+    from buidl import pecc
+
+    res = Res()
+    # a violating prefix is replayed with the message/aux values of the full history it was found in
+    salt = case.get("salt") or f"{case['seed']}/{case['hist']}"
+    run_history(pecc, ec.SECP, "real-history", [int(d) for d in case["ds"]], case["hist"], salt, res, lambda h: {"engine": "real-history", "case": dict(case, hist=h, salt=salt)})
+    if not res.n_violations and len(case["hist"]) > 1:
+        res.nontrivial.add(core_H(repr(case["hist"]))[:8])
     return res
 
 
@@ -168,7 +332,57 @@ def parity_classes(seed):
     return list(found.values())
 
 
+@functools.lru_cache(maxsize=None)
+def leading_zero_msgs(seed, d):
+    """Deterministic search, with the reference only: the first messages filler(seed, "c02lz", i), i = 0, 1, ... whose
+    BIP340 signature under secret d (aux = 00..00) has s < 2^248 resp. R.x < 2^248 (a leading zero byte in the
+    32-byte field).  Returns {"s": msg, "R": msg}."""
+    c = ec.SECP
+    P = c.mulg(d)
+    dd = d if P[1] % 2 == 0 else N - d
+    t = bytes(a ^ b for a, b in zip(ec.b32(dd), ec.tagged("BIP0340/aux", b"\x00" * 32)))
+    out = {}
+    for i in range(20000):
+        msg = filler(seed, "c02lz", i)
+        k0 = int.from_bytes(ec.tagged("BIP0340/nonce", t + ec.b32(P[0]) + msg), "big") % N
+        if k0 == 0:
+            continue
+        R = c.mulg(k0)
+        k = k0 if R[1] % 2 == 0 else N - k0
+        e = int.from_bytes(ec.tagged("BIP0340/challenge", ec.b32(R[0]) + ec.b32(P[0]) + msg), "big") % N
+        s = (k + e * dd) % N
+        if s < 2**248:
+            out.setdefault("s", msg)
+        if R[0] < 2**248:
+            out.setdefault("R", msg)
+        if len(out) == 2:
+            break
+    assert len(out) == 2, "no leading-zero signature within 20000 messages"
+    for kind, msg in out.items():  # the search is only a shortcut: the full reference must agree
+        sig = c.schnorr_sign(d, msg, b"\x00" * 32)
+        assert sig[32 if kind == "s" else 0] == 0
+    return out
+
+
+def leading_zero_secrets(tier, seed):
+    c = ec.SECP
+    ds = parity_classes(seed)
+    odd = next(d for d in ds if c.mulg(d)[1] % 2 == 1)
+    even = next(d for d in ds if c.mulg(d)[1] % 2 == 0)
+    return [odd] if tier == "quick" else [odd, even]
+
+
 def gen_real_sign(tier, seed):
+    cases = gen_real_sign_base(tier, seed)
+    # signatures with a leading zero byte in s resp. R.x (fixed-width serialisation), found with the reference
+    z = "00" * 32
+    for d in leading_zero_secrets(tier, seed):
+        lz = leading_zero_msgs(seed, d)
+        cases.append({"d": str(d), "pairs": [[lz["s"].hex(), z], [lz["R"].hex(), z], [lz["s"].hex(), None]], "lz": True})
+    return cases
+
+
+def gen_real_sign_base(tier, seed):
     secrets = parity_classes(seed) + [1, 2, N - 1, N - 2, 2**128, 2**255]
     msgs = [b"\x00" * 32, b"\xff" * 32, filler(seed, "c02msg", 0)]
     auxs = [None, b"\x00" * 32, b"\xff" * 32, filler(seed, "c02aux", 0)]
@@ -203,6 +417,8 @@ def run_real_sign(case):
         k = c.schnorr_nonce(d, msg, aux if aux is not None else b"\x00" * 32)
         R = c.mulg(k)
         res.ok(f"sign==ref(Podd={P[1]&1},Rodd={R[1]&1})", nontrivial=(case["d"], mh, ah), sample={"d": case["d"], "msg": mh, "aux": ah})
+        if exp[0] == 0 or exp[32] == 0:
+            res.ok("sign==ref with a leading zero byte in " + ("R.x" if exp[0] == 0 else "s"), nontrivial=("lz", case["d"], mh, ah))
         if not lib_verify(pecc, priv.point, msg, sig):
             res.violation("C02/real-sign/own-rejected", vc, False, True, "verify_schnorr rejects own signature")
         else:
@@ -251,6 +467,25 @@ def verify_catalogue(c, d, msg, sig, tier):
     out["key>=p"] = (ec.b32(PP + 1), msg, sig)
     # negated R (odd-Y R with the same x) keeps x: the signature with s for -k must not verify
     out["s-for-negated-nonce"] = (pk, msg, r + ec.b32((N - s) % N))
+    # forgeries that need the secret (the verifier's three structural checks on the real curve):
+    dd = d if P[1] % 2 == 0 else N - d
+    k0 = c.schnorr_nonce(d, msg, b"\x00" * 32)
+    Rk = c.mulg(k0)
+    k_even, k_odd = (k0, N - k0) if Rk[1] % 2 == 0 else (N - k0, k0)
+    e = int.from_bytes(ec.tagged("BIP0340/challenge", r + pk + msg), "big") % N
+    # s*G - e*P = k_odd*G: the right x coordinate with ODD y
+    out["forge-oddY-R"] = (pk, msg, r + ec.b32((k_odd + e * dd) % N))
+    # signer used the secret of the odd-Y key (no even-Y normalisation of d)
+    out["forge-unnormalised-secret"] = (pk, msg, r + ec.b32((k_even + e * (N - dd)) % N))
+    # s*G - e*P = infinity
+    out["forge-result-infinity"] = (pk, msg, r + ec.b32(e * dd % N))
+    # altered key: single-bit flips of the 32 key bytes (about half are not x coordinates, the rest are other keys)
+    for i in range(32):
+        for b in bits:
+            bit = (b + i) % 8 if tier == "quick" else b
+            m = bytearray(pk)
+            m[i] ^= 1 << bit
+            out[f"key-byte{i}-bit{bit}"] = (bytes(m), msg, sig)
     return out
 
 
@@ -258,8 +493,12 @@ def gen_real_verify(tier, seed):
     secrets = parity_classes(seed)
     cases = []
     c = ec.SECP
-    for d in secrets:
-        msg = filler(seed, "c02vmsg", d % 97)
+    bases = [(d, filler(seed, "c02vmsg", d % 97)) for d in secrets]
+    # base signatures with a leading zero byte in s resp. R.x
+    for d in leading_zero_secrets(tier, seed):
+        lz = leading_zero_msgs(seed, d)
+        bases += [(d, lz["s"]), (d, lz["R"])]
+    for d, msg in bases:
         sig = c.schnorr_sign(d, msg, b"\x00" * 32)
         names = [nm for nm in verify_catalogue(c, d, msg, sig, tier) if nm != "valid"]
         G = 6
@@ -295,7 +534,151 @@ def run_real_verify(case):
             cls = dev.split("-byte")[0]
             res.violation(f"C02/real-verify/{'accepts' if got else 'rejects'}/{cls}", vc, got, exp, "verify_schnorr disagrees with BIP340 on secp256k1 (the valid triple was verified first in the same process)")
         else:
-            res.ok(f"verify==ref({exp})", nontrivial=(case["d"], dev) if dev != "valid" else None, sample={"d": case["d"], "dev": dev} if dev in ("s=n", "R=p") else None)
+            res.ok(f"verify==ref({exp})", nontrivial=(case["d"], case["msg"], dev) if dev != "valid" else None, sample={"d": case["d"], "dev": dev} if dev in ("s=n", "R=p") else None)
+    return res
+
+
+# ------------------------------------------------------------------ other forms of the key objects
+SIGN_FORMS = ["ctor-uncompressed-testnet", "wif", "wif-uncompressed-testnet", "tweaked", "tweaked-merkle"]
+VERIFY_FORMS = ["xonly", "sec02", "sec03", "sec04", "sec04-negated", "ctor-int", "ctor-field", "negated", "even_point", "privkey-point", "sum"]
+
+
+def gen_real_keyforms(tier, seed):
+    secrets = parity_classes(seed)
+    if tier == "thorough":
+        secrets = secrets + [2, N - 2] + [filler_int(seed, "c02kf", i, 1, N - 1) for i in range(2)]
+    return [{"d": str(d), "form": f, "seed": seed} for d in secrets for f in SIGN_FORMS + VERIFY_FORMS]
+
+
+def run_real_keyforms(case):
+    from buidl import pecc
+
+    res = Res()
+    c = ec.SECP
+    d = int(case["d"])
+    form = case["form"]
+    seed = case["seed"]
+    msg = filler(seed, "c02kf-msg", 0)
+    aux = filler(seed, "c02kf-aux", 0)
+    vc = {"engine": "real-keyforms", "case": case}
+    if form in SIGN_FORMS:
+        PK = pecc.PrivateKey
+        mk = {
+            "ctor-uncompressed-testnet": lambda: PK(d, network="testnet", compressed=False),
+            "wif": lambda: PK.parse(PK(d).wif(compressed=True)),
+            "wif-uncompressed-testnet": lambda: PK.parse(PK(d, network="testnet").wif(compressed=False)),
+            "tweaked": lambda: PK(d).tweaked_key(),
+            "tweaked-merkle": lambda: PK(d).tweaked_key(merkle_root=filler(seed, "c02kf-root", 0)),
+        }[form]
+        key = attempt(mk)
+        sec = None if isinstance(key, Rejected) else getattr(key, "secret", None)
+        if form.startswith("tweaked"):
+            # which secret the tweaked key must have is C12's business; here: whatever private key it is, it signs per BIP340
+            if not (isinstance(sec, int) and 1 <= sec <= N - 1):
+                res.skip("tweaked_key gave no private key in [1, n-1] (C12)")
+                return res
+        elif sec != d:
+            res.skip("WIF / constructor did not give back the secret (C09)")
+            return res
+        exp = c.schnorr_sign(sec, msg, aux)
+        sig = attempt(lambda: key.sign_schnorr(msg, aux).serialize())
+        if sig != exp:
+            res.violation(f"C02/real-keyforms/sign-differs/{form}", vc, sig, exp, "sign_schnorr of a key object obtained this way is not the BIP340 signature of its secret")
+            return res
+        res.ok(f"sign==ref({form})", nontrivial=(case["d"], form))
+        pk = ec.b32(c.mulg(sec)[0])
+        for via, fn in (("key.point", lambda: key.point), ("parsed x-only", lambda: pecc.S256Point.parse(pk))):
+            pt = attempt(fn)
+            if isinstance(pt, Rejected) or not lib_verify(pecc, pt, msg, sig):
+                res.violation(f"C02/real-keyforms/own-rejected/{form}", vc, False, True, f"signature does not verify under {via}")
+            else:
+                res.ok("verifies")
+        return res
+    P = c.mulg(d)
+    x, y = P
+    Pn = (x, c.p - y)
+    mk = {
+        "xonly": lambda: pecc.S256Point.parse(ec.b32(x)),
+        "sec02": lambda: pecc.S256Point.parse(b"\x02" + ec.b32(x)),
+        "sec03": lambda: pecc.S256Point.parse(b"\x03" + ec.b32(x)),
+        "sec04": lambda: pecc.S256Point.parse(c.sec(P, compressed=False)),
+        "sec04-negated": lambda: pecc.S256Point.parse(c.sec(Pn, compressed=False)),
+        "ctor-int": lambda: pecc.S256Point(x, y),
+        "ctor-field": lambda: pecc.S256Point(pecc.S256Field(x), pecc.S256Field(c.p - y)),
+        "negated": lambda: -1 * pecc.S256Point(x, y),
+        "even_point": lambda: pecc.S256Point(x, y).even_point(),
+        "privkey-point": lambda: pecc.PrivateKey(N - d).point,
+        "sum": lambda: pecc.S256Point(*c.mulg((d - 1) % N or 2)) + pecc.S256Point(*c.mulg(1 if (d - 1) % N else N - 1)),
+    }[form]
+    pt = attempt(mk)
+    if isinstance(pt, Rejected):
+        res.skip(f"key object form {form} not constructible (C03)")
+        return res
+    # every form is a point with x coordinate x, y of either parity: BIP340 verification under the x-only key x
+    pk = ec.b32(x)
+    sig = c.schnorr_sign(d, msg, aux)
+    s = int.from_bytes(sig[32:], "big")
+    flipped = bytes([msg[0] ^ 1]) + msg[1:]
+    for nm, (m, sg) in (("valid", (msg, sig)), ("msg-bit", (flipped, sig)), ("n-s", (msg, sig[:32] + ec.b32(N - s))), ("valid-again", (msg, sig))):
+        exp = c.schnorr_verify(pk, m, sg)
+        got = lib_verify(pecc, pt, m, sg)
+        if got != exp:
+            res.violation(f"C02/real-keyforms/verify/{'accepts' if got else 'rejects'}/{form}", dict(vc, dev=nm), got, exp, "verify_schnorr on a point object obtained this way disagrees with BIP340 under its x-only key")
+        else:
+            res.ok(f"verify==ref({exp})", nontrivial=(case["d"], form, nm))
+    return res
+
+
+# ------------------------------------------------------------------ nonce derivation, byte positions
+def byte_variants(base):
+    """base with byte i forced to 00 and to ff, for every position i."""
+    out = []
+    for i in range(32):
+        for v in (0, 0xFF):
+            b = bytearray(base)
+            b[i] = v
+            out.append(bytes(b))
+    return out
+
+
+def gen_nonce_bytes(tier, seed):
+    cases = [{"d": str(d), "kind": "msg+aux", "seed": seed} for d in parity_classes(seed) + [1, N - 1]]
+    # secrets with a single non-zero byte (01 / ff) at every position
+    for i in range(32):
+        for v in (1, 0xFF):
+            d = v << (8 * i)
+            if 1 <= d <= N - 1:
+                cases.append({"d": str(d), "kind": "secret", "seed": seed})
+    return cases
+
+
+def run_nonce_bytes(case):
+    from buidl import pecc
+
+    res = Res()
+    c = ec.SECP
+    d = int(case["d"])
+    seed = case["seed"]
+    if not hasattr(pecc.PrivateKey, "bip340_k"):
+        res.skip("PrivateKey.bip340_k does not exist (nonce derivation then covered through sign_schnorr only)")
+        return res
+    key = pecc.PrivateKey(d)
+    m0, a0 = filler(seed, "c02nb-msg", 0), filler(seed, "c02nb-aux", 0)
+    if case["kind"] == "secret":
+        todo = [("secret", m0, a0), ("secret", b"\x00" * 32, b"\x00" * 32), ("secret", b"\xff" * 32, b"\xff" * 32)]
+    else:
+        todo = [("msg", m, a0) for m in byte_variants(m0)] + [("aux", m0, a) for a in byte_variants(a0)]
+    P = c.mulg(d)
+    dd = d if P[1] % 2 == 0 else N - d
+    for what, m, a in todo:
+        t = bytes(u ^ v for u, v in zip(ec.b32(dd), ec.tagged("BIP0340/aux", a)))
+        k0 = int.from_bytes(ec.tagged("BIP0340/nonce", t + ec.b32(P[0]) + m), "big") % N
+        k = attempt(key.bip340_k, m, a)
+        # k and n - k give the same signature (R is normalised to even Y afterwards): both are the specified nonce
+        if isinstance(k, Rejected) or not isinstance(k, int) or k % N not in (k0, N - k0):
+            res.violation(f"C02/nonce-bytes/{what}", {"engine": "nonce-bytes", "case": case, "msg": m.hex(), "aux": a.hex()}, k, k0, "bip340_k is not the BIP340 nonce int(hash_nonce(bytes(d) xor hash_aux(a) || bytes(P) || m)) mod n (up to sign)")
+            break
+        res.ok(f"nonce==ref({what})", nontrivial=(case["d"], what, m, a))
     return res
 
 
@@ -320,13 +703,68 @@ def gen_tagcache(tier, seed):
     for dl in (1, 2, 3):
         for h in itertools.product(idx, repeat=dl):
             cases.append({"hist": list(h)})
+    # arbitrary tags through tagged_hash: every history of <= 3 uses over the 8 WIDE_TAGS, of exactly 4 over the first 4
+    for dl in (1, 2, 3):
+        for h in itertools.product(range(len(WIDE_TAGS)), repeat=dl):
+            cases.append({"wide": list(h)})
+    for h in itertools.product(range(4), repeat=4):
+        cases.append({"wide": list(h)})
     return cases
+
+
+_TL = hashlib.sha256(b"TapLeaf").digest()
+WIDE_TAGS = [
+    b"",  # empty tag
+    b"Tap",  # proper prefix of TapLeaf / TapBranch / ...
+    b"TapLeaf",
+    _TL + _TL,  # the 64 bytes a cache holds for TapLeaf, used as a tag themselves
+    b"TapLeaf\x00",  # a tag extended by a zero byte
+    b"BIP0340/aux",  # same length as the next one
+    b"KeyAgg list",
+    _TL,  # sha256(tag) of another tag as a tag
+]
+
+
+def run_tagcache_wide(case):
+    import buidl.hash as bh
+    import buidl.phash as ph
+
+    res = Res()
+    cache = getattr(ph, "TAG_HASH_CACHE", None)
+    if isinstance(cache, dict):
+        cache.clear()
+    named = {tag: name for name, tag in TAG_FUNCS}
+    msgs = [b"", b"\x01" * 32, b"abc" * 30, b"\xff"]
+    for step, i in enumerate(case["wide"]):
+        tag = WIDE_TAGS[i]
+        msg = msgs[step % 4]
+        t = hashlib.sha256(tag).digest()
+        exp = hashlib.sha256(t + t + msg).digest()
+        res.transitions += 1
+        # an equal tag object with another identity each time, and a second call on the now cached tag
+        for rep in (0, 1):
+            got = attempt(ph.tagged_hash, bytes(bytearray(tag)), msg)
+            if got != exp:
+                cls = "first-use" if step == 0 and rep == 0 else ("repeated-use" if rep or i in case["wide"][:step] else "after-other-tags")
+                res.violation(f"C02/tagcache/wide/{cls}", {"engine": "tagcache", "case": dict(case, wide=case["wide"][: step + 1])}, got, exp, f"tagged_hash({tag!r}, msg) wrong at step {step} of the history")
+                return res
+        if tag in named:
+            fn = getattr(bh, named[tag], None) or getattr(ph, named[tag])
+            got = attempt(fn, msg)
+            if got != exp:
+                res.violation(f"C02/tagcache/{named[tag]}", {"engine": "tagcache", "case": dict(case, wide=case["wide"][: step + 1])}, got, exp, f"tagged hash function wrong at step {step} of a history with arbitrary tags")
+                return res
+    res.states += 1
+    res.ok("wide history ok", nontrivial=("wide", tuple(case["wide"])) if len(set(case["wide"])) > 1 else None, sample=case if len(case["wide"]) == 4 and len(set(case["wide"])) == 4 else None)
+    return res
 
 
 def run_tagcache(case):
     import buidl.hash as bh
     import buidl.phash as ph
 
+    if "wide" in case:
+        return run_tagcache_wide(case)
     res = Res()
     cache = getattr(ph, "TAG_HASH_CACHE", None)
     if isinstance(cache, dict):
@@ -355,13 +793,18 @@ def run_tagcache(case):
 
 def engines(tier, seed):
     toys = [(43, 31)] if tier == "quick" else [(43, 31), (79, 67), (67, 79)]
+    hl = 2 if tier == "quick" else 3
     es = []
     for toy in toys:
         es.append(Engine(f"toy-sign-{toy[0]}", gen_toy_sign(toy), run_toy_sign, toy=toy, kind="E3", rule=f"toy curve p={toy[0]} n={toy[1]}: every secret x every nonce in [0,n-1] (nonce seam) x messages: 64 bytes == BIP340 reference for that nonce, verifies; plus un-seamed signing over 4 aux values == reference nonce derivation"))
-        es.append(Engine(f"toy-verify-{toy[0]}", gen_toy_verify(toy), run_toy_verify, toy=toy, kind="E3", rule=f"toy curve p={toy[0]} n={toy[1]}: every public key (both parities) x messages x R.x in [0,p+1]+{{2^256-1}} x s in [0,n+1]+{{2^256-1}}: SchnorrSignature.parse + verify_schnorr == BIP340 verify, both directions"))
+        es.append(Engine(f"toy-verify-{toy[0]}", gen_toy_verify(toy), run_toy_verify, toy=toy, kind="E3", rule=f"toy curve p={toy[0]} n={toy[1]}: every public key (both parities) x messages x R.x in [0,p+1]+{{2^256-1}} (first message: [0,2p+1], the alias x+p of every valid x) x s in [0,n+1]+{{2^256-1}}: SchnorrSignature.parse + verify_schnorr == BIP340 verify, both directions; plus the key as a 32-byte string through S256Point.parse: every kx in [0,2p+1]+{{2^256-1}} (0, off-curve, >= p incl. the alias x+p of every valid x) x {'1 message' if tier == 'quick' else '2 messages'} x the same (R.x, s) grid == BIP340 verify of those bytes"))
+        es.append(Engine(f"toy-history-{toy[0]}", gen_toy_history(toy), run_toy_history, toy=toy, kind="E2", rule=f"toy curve p={toy[0]} n={toy[1]}: every secret d0 paired with d0+1 and with n-d0 (same x-only key): every sequence of <= {hl} sign operations over the alphabet (key 0/1, message 0/1, aux 0/1) on two key objects created once, in one process; after each operation the 64 bytes == BIP340 reference and the signature is verified under both keys == BIP340 verify"))
     es += [
-        Engine("real-sign", gen_real_sign, run_real_sign, kind="E1", rule="secp256k1: secrets covering all four (P parity, R parity) classes + boundary secrets x messages x aux {None,00,ff,filler}: exact 64 bytes of the BIP340 reference, verifies, also under the parsed x-only key"),
-        Engine("real-verify", gen_real_verify, run_real_verify, kind="E1", rule="secp256k1: 4 base signatures x deviation catalogue (bit flips of all 64 signature bytes and 32 message bytes: 1 bit per byte quick / all 8 thorough; R in {0,1,p-1,p,2^256-1,off-curve,Gx}; s in {0,n-1,n,n+1,2^256-1,s+n,n-s}; other/off-curve/out-of-range key): accepted iff the BIP340 reference accepts"),
-        Engine("tagcache", gen_tagcache, run_tagcache, kind="E2", rule="every sequence of <= 3 first uses over the 10 tagged-hash functions from an emptied TAG_HASH_CACHE equals sha256(sha256(tag)||sha256(tag)||msg)"),
+        Engine("real-sign", gen_real_sign, run_real_sign, kind="E1", rule="secp256k1: secrets covering all four (P parity, R parity) classes + boundary secrets x messages x aux {None,00,ff,filler}: exact 64 bytes of the BIP340 reference, verifies, also under the parsed x-only key; plus, for an odd-Y secret (thorough: also an even-Y one), the first filler messages whose reference signature has s < 2^248 resp. R.x < 2^248 (leading zero byte, deterministic reference-only search)"),
+        Engine("real-verify", gen_real_verify, run_real_verify, kind="E1", rule="secp256k1: base signatures (4 parity classes + 2 per leading-zero secret with a leading zero byte in s resp. R.x) x deviation catalogue (bit flips of all 64 signature bytes, 32 message bytes and 32 key bytes: 1 bit per byte quick / all 8 thorough; R in {0,1,p-1,p,2^256-1,off-curve,Gx}; s in {0,n-1,n,n+1,2^256-1,s+n,n-s}; other/off-curve/out-of-range key; forgeries computed from the secret: odd-Y R with matching s, s for the un-normalised secret, s*G - e*P = infinity): accepted iff the BIP340 reference accepts"),
+        Engine("real-history", gen_real_history, run_real_history, kind="E2", rule=f"secp256k1: one even-Y and one odd-Y secret: every sequence of <= {hl} sign operations over the alphabet (key 0/1, message 0/1, aux 0/1), both key objects created once per sequence, all operations in one process; after each operation the 64 bytes == BIP340 reference and the signature is verified under both keys == BIP340 verify"),
+        Engine("real-keyforms", gen_real_keyforms, run_real_keyforms, kind="E1", rule="secp256k1: 4 parity-class secrets (thorough: +4) x ways to obtain the key object: signing keys {uncompressed/testnet constructor, WIF round trip compressed and uncompressed/testnet, tweaked_key() without and with merkle root}: 64 bytes == BIP340 reference for the object's secret, verifies under key.point and the parsed x-only key; verifying points {x-only, SEC 02, 03, 04, 04 of the negated point, int and field constructors, -1*P, even_point(), PrivateKey(n-d).point, (d-1)G+G}: valid / message bit / n-s / valid again == BIP340 verify under the x-only key"),
+        Engine("nonce-bytes", gen_nonce_bytes, run_nonce_bytes, kind="E1", rule="secp256k1, PrivateKey.bip340_k directly (no curve arithmetic): 6 secrets x (message with byte i forced to 00 / ff, i = 0..31; aux likewise) and secrets 01<<8i, ff<<8i (i = 0..31, below n) x 3 (message, aux) pairs: k mod n in {k0, n-k0} for the BIP340 nonce k0 = int(hash_nonce(bytes(d) xor hash_aux(aux) || bytes(P) || m)) mod n (both give the same signature)"),
+        Engine("tagcache", gen_tagcache, run_tagcache, kind="E2", rule="every sequence of <= 3 first uses over the 10 tagged-hash functions from an emptied TAG_HASH_CACHE equals sha256(sha256(tag)||sha256(tag)||msg); plus tagged_hash with arbitrary tags {empty, 'Tap', 'TapLeaf', the 64 midstate bytes of TapLeaf, 'TapLeaf\\x00', two 11-byte tags, sha256('TapLeaf')}: every history of <= 3 uses over these 8 and of exactly 4 over the first 4, each use twice with a fresh equal bytes object"),
     ]
     return es
